@@ -611,6 +611,47 @@ def _explicit_next(d):
     return {"value": d["value"], "next": _explicit_next(d.get("next"))}
 
 
+def conversion_facade_case(ctx: Ctx, rng):
+    """first-match order through the conversion facade: recipe of the retort, `extend(recipe=...)` (prepends) and the per-call
+    `recipe=` of get_converter / convert (prepends to everything), requested in any order on one retort"""
+    from dataclasses import dataclass
+
+    from adaptix.conversion import ConversionRetort, coercer
+
+    @dataclass
+    class CS:
+        v: int
+
+    @dataclass
+    class CD:
+        v: int
+
+    def entry(i):
+        return coercer(int, int, lambda x, i=i: i)
+    base = list(range(rng.randint(0, 3)))
+    ext = [10 + i for i in range(rng.randint(0, 2))]
+    per_call = [[], [20], [21, 22]]
+    retort = ConversionRetort(recipe=[entry(i) for i in base])
+    if ext or rng.random() < 0.5:
+        retort = retort.extend(recipe=[entry(i) for i in ext])
+    calls = [rng.choice(per_call) for _ in range(rng.randint(1, 4))]
+    case = {"suite": "conversion-facade", "base": base, "extend": ext, "calls": calls}
+    ctx.note_case(case, nontrivial=len(calls) > 1, kind=f"conversion-facade:{min(len(calls), 3)}-calls")
+    for k, pc in enumerate(calls):
+        order = pc + ext + base
+        want = order[0] if order else 5          # nothing matches: int -> int is copied as is
+        kw = {"recipe": [entry(i) for i in pc]} if pc else {}
+        try:
+            got = (retort.get_converter(CS, CD, **kw)(CS(5)) if rng.random() < 0.5 else retort.convert(CS(5), CD, **kw)).v
+        except Exception as e:  # noqa: BLE001
+            ctx.fail("conversion-facade:raises", f"call #{k} with recipe {pc} raised {type(e).__name__}: {e}"[:200], case)
+            return
+        if got != want:
+            ctx.fail("conversion-facade:first-match", f"call #{k} with per-call recipe {pc} after calls {calls[:k]} (extend {ext}, base "
+                     f"{base}) is served by entry {got}; first match in recipe order is {want}", case)
+            return
+
+
 def facade_options(ctx: Ctx, real: Real):
     """replace() changes only scalar options; a nested retort keeps its own options."""
     from adaptix import Retort
@@ -650,6 +691,8 @@ def run(ctx: Ctx):
     facade_options(ctx, real)
     for _ in range(ctx.budget(150, 3000)):
         recursive_chain_case(ctx, real, ctx.rng)
+    for _ in range(ctx.budget(200, 3000)):
+        conversion_facade_case(ctx, ctx.rng)
     ctx.extra["exhaustive"] = False
     ctx.extra["exhaustive_part"] = f"router items/walk: all checker lists of length <= {5 if thorough else 4} over 5 checkers x 12 requests"
 
@@ -667,6 +710,9 @@ def search(ctx: Ctx):
     if not ctx.failures:
         for _ in range(1500):
             recursive_chain_case(ctx, real, ctx.rng)
+    if not ctx.failures:
+        for _ in range(1500):
+            conversion_facade_case(ctx, ctx.rng)
 
 
 def replay(ctx: Ctx, case) -> bool:
